@@ -66,6 +66,11 @@ fn subsets(pool: &[&'static str], max: usize) -> Vec<Vec<&'static str>> {
                 if max >= 3 {
                     for k in j + 1..n {
                         out.push(vec![pool[i], pool[j], pool[k]]);
+                        if max >= 4 {
+                            for l in k + 1..n {
+                                out.push(vec![pool[i], pool[j], pool[k], pool[l]]);
+                            }
+                        }
                     }
                 }
             }
@@ -157,10 +162,10 @@ fn tagname_cases() -> Vec<ProbeCase> {
 }
 
 pub fn check(ctx: &mut Ctx) {
-    ctx.rule = "cases = probe documents `A<tag attrs>X</tag>B` with a configuration and the exact expected output. Exhaustive: all target sets of size <= 3 over a 16-name pool (prefixes / superstrings / case variants / padded / empty / option-default strings / look-alikes) x every probed value x both quote kinds, bare and missing name; skip at every attribute position in 4 spellings x 3 separators, the word skip inside quoted values; 6 tag-name configurations x look-alike tag names. CLI: no target option / repeated target options incl. every [default: ...] string of --help. Non-trivial = target set non-empty and the probed value is a near miss of a member, or a skip is involved, or a look-alike tag name.".into();
+    ctx.rule = "cases = probe documents `A<tag attrs>X</tag>B` with a configuration and the exact expected output. Exhaustive: all target sets of size <= 3 (thorough: <= 4) over a 16-name pool (prefixes / superstrings / case variants / padded / empty / option-default strings / look-alikes) x every probed value x both quote kinds, bare and missing name; skip at every attribute position in 4 spellings x 3 separators, the word skip inside quoted values; 6 tag-name configurations x look-alike tag names. CLI: no target option / repeated target options incl. every [default: ...] string of --help. Non-trivial = target set non-empty and the probed value is a near miss of a member, or a skip is involved, or a look-alike tag name.".into();
     ctx.assume("duplicate name attributes are unspecified and never generated");
     ctx.replay_corpus(replay);
-    let sets = subsets(NAME_POOL, ctx.tier.pick(3, 3));
+    let sets = subsets(NAME_POOL, ctx.tier.pick(3, 4));
     let n_sets = sets.len();
     // units: chunks of target sets
     let chunks: Vec<Vec<Vec<&'static str>>> = sets.chunks(40).map(|c| c.to_vec()).collect();
